@@ -8,7 +8,7 @@ CONSTANTS
   MemoCap = 3
   MaxFeat = 2
   MaxSorts = 2
-  MaxQueries = 2
+  MaxQueries = 1
   BetweenOn = TRUE
   AnnotLevel = 0
   UnsortedQueries = TRUE
